@@ -968,6 +968,7 @@ def _ext_fam(disp, kind=None, typeof=False):
 for _d in DISPATCHERS:
     _fam(_d, _ext_fam(_d))
     _fam('ext_type_of_' + _d, _ext_fam(_d, typeof=True))
+_fam('ext_type_of', lambda rng: _ext_fam(rng.choice(DISPATCHERS), typeof=True)(rng))
 for _k in EXT_KINDS:                         # per-variant families, dispatcher drawn per case
     _fam('ext_kind_' + _k, lambda rng, k=_k: _ext_fam(rng.choice(DISPATCHERS), k)(rng))
 
